@@ -9,6 +9,7 @@ import (
 	"bufio"
 	"fmt"
 	"io"
+	"os"
 	"os/exec"
 	"strconv"
 	"strings"
@@ -357,4 +358,20 @@ func evalModelValue(e interface{}) (uint64, error) {
 		}
 	}
 	return 0, fmt.Errorf("unparsed %v", e)
+}
+
+// rssMB: resident set of the solver process (Linux /proc), 0 if unknown.
+func (s *Solver) rssMB() int {
+	if s == nil || s.cmd == nil || s.cmd.Process == nil {
+		return 0
+	}
+	b, err := os.ReadFile(fmt.Sprintf("/proc/%d/statm", s.cmd.Process.Pid))
+	if err != nil {
+		return 0
+	}
+	var size, rss int
+	if _, err := fmt.Sscan(string(b), &size, &rss); err != nil {
+		return 0
+	}
+	return rss * os.Getpagesize() >> 20
 }
